@@ -32,6 +32,7 @@ type Options struct {
 	// explored space is then "all schedules with at most Bound deviations, all of them inside the
 	// window" - a way to afford a deeper bound around one instant of a long execution.
 	DevFrom, DevTo int64
+	Stall          bool // StallDeviations
 }
 
 // Violation is a failed execution.
@@ -76,6 +77,7 @@ func Explore(sc *Scenario, opt Options) *Stats {
 	}
 	FingerprintIgnoresRunning = opt.Bound < 0
 	StrictDeviations = opt.StrictDev
+	StallDeviations = opt.Stall
 	DefaultPolicy = opt.Policy
 	cache := map[uint64]int{} // fingerprint -> best remaining budget explored (+1)
 	stack := []frame{{prefix: append([]int{}, opt.Prefix...), cost: opt.PrefixCost}}
